@@ -63,6 +63,9 @@ func checkResume(in HistInput) string {
 	}
 	h := in.build()
 	start := ref.Position{File: h.Files[0].Name, Pos: 4}
+	if in.EmptyStart {
+		start.File = ""
+	}
 	served, err := h.Serve(start.File, start.Pos)
 	if err != nil {
 		return "generator error: " + err.Error()
@@ -154,7 +157,7 @@ func runC03(r *chk.Run) {
 	}
 	cfgA := ref.Cfg{Checksum: ref.ChecksumCRC32, RowsV2: true, TableID6: true, GTID: true, ServerID: 5, ServerVer: "5.7.30-log"}
 	cfgB := ref.Cfg{Checksum: ref.ChecksumOff, RowsV2: false, TableID6: false, ServerID: 5, ServerVer: "5.5.62"}
-	alpha := []string{UTxXID, UDDL, URotate, UTxCommit, UUnknownSt, UAutoRows, URotateStop, UTxRollback, UGTID, UTx2}
+	alpha := []string{UTxXID, UDDL, URotate, UTxCommit, UUnknownSt, UAutoRows, URotateStop, UTxRollback, UGTID, UTx2, UTxDDL}
 	long := make([]byte, 255)
 	for i := range long {
 		long[i] = 'a' + byte(i%26)
@@ -203,6 +206,15 @@ func runC03(r *chk.Run) {
 						}
 					}
 				}
+				if len(seq) <= 3 && len(seq) > 0 && ci == 0 && mode == "" {
+					// the stream starts with an empty file name: every label up to the
+					// first rotation carries it and must still be a resume point
+					in3 := in
+					in3.EmptyStart = true
+					if !hr.add(in3) {
+						return
+					}
+				}
 				if len(seq) <= 2 && len(seq) > 0 && ci == 0 {
 					// the connection is lost in front of every packet of the dump in turn
 					for k := 2; k <= 14; k++ {
@@ -216,6 +228,22 @@ func runC03(r *chk.Run) {
 			}
 		}
 	})
+	// a statement the library does not classify inside a transaction (SAVEPOINT):
+	// labels, resume points, and the connection lost in front of every packet
+	for _, cfg := range []ref.Cfg{cfgA, cfgB} {
+		base := HistInput{Units: []string{UTxXID, UTxSave, UTxCommit}, Cfg: cfg, LockStep: true, Oracle: "resume"}
+		hr.add(base)
+		for k := 2; k <= 20; k++ {
+			in := base
+			in.CutAt = k + 1
+			hr.add(in)
+		}
+		for k := 1; k <= 3; k++ {
+			in := base
+			in.RejectAt = k
+			hr.add(in)
+		}
+	}
 	hr.finish()
 	_ = resumePoints
 	r.Set("alphabet", alpha)
